@@ -241,6 +241,8 @@ def run_data(place, size):
             if not (place.endswith("_discarded") or place.endswith("_selected")) and len(json.dumps(want)) != size:
                 raise HarnessError("payload construction for %s: %d != %d" % (place, len(json.dumps(want)), size))
             if len(json.dumps(inp)) > Lm:
+                if place.endswith(("_discarded", "_selected")) and size > 2 * Lm - 100:
+                    return []       # (an inner output more than twice the limit would need an input that is itself over it: not a case of this place)
                 raise HarnessError("input itself over the limit")
             st, r = w.create_state_machine("m", definition)
             if st != 200:
